@@ -193,7 +193,7 @@ def broadcast(chk):
                 st = State()
                 b = mk_builder(I, st)
                 b = Struct(b.name, [b.fields[0], none(), some(I.sym_value(adt(TLB + 'Pcid'), 'pc')) if has_pc else none(), some(BV.sym(16, 'asid')) if has_as else none(), b.fields[4], b.fields[5], b.fields[6]])
-                ref = arg_obj(st, 'self', b)
+                ref = arg_obj(st, 'self', actual(I, b))
                 outs = I.run(B + 'flush', [ref], st, {'S': S})
                 chk.count('function-instances')
                 ok = len(outs) == 1 and outs[0].kind == 'ret'
@@ -211,8 +211,111 @@ def broadcast(chk):
 B = TLB + "InvlpgbFlushBuilder::<'a, S>::"
 
 
+_PERM = {}
+
+
+def inv_order(I):
+    """positions of (count max: u16, nested: bool, nasid: u32) in the private `Invlpgb` struct, by field type (the three types are distinct)"""
+    lays = [l for l in I.facts['layouts'] if l['tys'] == TLB + 'Invlpgb']
+    if lays:
+        def role(t):
+            if t.get('k') == 'uint' and t.get('bits') == 16:
+                return 0
+            if t.get('k') == 'bool':
+                return 1
+            if t.get('k') == 'uint' and t.get('bits') == 32:
+                return 2
+        r = [role(f['ty']) for f in lays[0]['fields']]
+        if sorted(x for x in r if x is not None) == [0, 1, 2] and len(r) == 3:
+            return [r.index(k) for k in range(3)]
+    return [0, 1, 2]
+
+
+def mk_inv(I, cap, nested, nasid):
+    pos = inv_order(I)
+    f = [None] * 3
+    for k, v in enumerate((cap, nested, nasid)):
+        f[pos[k]] = v
+    return Struct(TLB + 'Invlpgb', f)
+
+
+def inv_canon(I, v):
+    pos = inv_order(I)
+    return [v.fields[pos[k]] for k in range(3)]
+
+
+def builder_perm(I):
+    """where the builder keeps (invlpgb reference, page range, pcid, asid, include_global, final_translation_only, include_nested): found by
+    building one with the public `Invlpgb::build` and watching which field each public setter changes - the fields are private, so their
+    order is the crate's business. perm[k] = actual position of canonical field k."""
+    if id(I) in _PERM:
+        return _PERM[id(I)]
+    INV = TLB + 'Invlpgb'
+    S = size_ty('Size4KiB')
+    ident = list(range(7))
+    try:
+        st = State()
+        st.mem[('obj', 'invlpgb')] = Opaque('invlpgb-object')
+        o = I.run(INV + '::build', [Ref(('obj', 'invlpgb'))], st)
+        b0 = o[0].val
+        if len(o) != 1 or not isinstance(b0, Struct) or len(b0.fields) != 7:
+            raise Unsupported('build')
+        perm = [None] * 7
+        perm[0] = [i for i, x in enumerate(b0.fields) if isinstance(x, Ref)][0]
+
+        def changed(meth, extra, by_value=False):
+            st2 = State()
+            st2.mem[('obj', 'invlpgb')] = mk_inv(I, BV.sym(16, 'cap'), BV.const(1, 1), BV.sym(32, 'nasid'))
+            f_ = I.fn.get(B + meth)
+            if f_ is not None:
+                by_value = f_['locals'][1].get('k') != 'ref'
+            if by_value:
+                outs = I.run(B + meth, [b0] + extra, st2, {'S': S})
+                after = [x.val for x in outs if x.kind == 'ret' and isinstance(x.val, Struct) and len(x.val.fields) == 7]
+            else:
+                st2.mem[('arg', 'self')] = b0
+                outs = I.run(B + meth, [Ref(('arg', 'self'))] + extra, st2, {'S': S})
+                after = [x.st.mem[('arg', 'self')] for x in outs if x.kind == 'ret']
+            idx = set()
+            for a in after:
+                for i, (x, y) in enumerate(zip(b0.fields, a.fields)):
+                    if repr(x) != repr(y):
+                        idx.add(i)
+            return idx
+        pgt = adt(PG, S)
+        rng = Struct('structures::paging::page::PageRange', [I.sym_value(pgt, 'rs'), I.sym_value(pgt, 're')])
+        probes = ((1, 'pages', [rng], True), (2, 'pcid', [I.sym_value(adt(TLB + 'Pcid'), 'pc')], False), (3, 'asid', [BV.sym(16, 'asid')], False),
+                  (4, 'include_global', [], False), (5, 'final_translation_only', [], False), (6, 'include_nested_translations', [], False))
+        for k, meth, extra, byv in probes:
+            ix = changed(meth, extra, byv)
+            if len(ix) != 1:
+                raise Unsupported('setter %s changes %r' % (meth, ix))
+            perm[k] = ix.pop()
+        if sorted(perm) != ident:
+            raise Unsupported('roles %r' % (perm,))
+    except (Unsupported, IndexError, KeyError, AttributeError, TypeError):
+        perm = ident
+    _PERM[id(I)] = perm
+    return perm
+
+
+def actual(I, b):
+    perm = builder_perm(I)
+    f = [None] * 7
+    for k, pos in enumerate(perm):
+        f[pos] = b.fields[k]
+    return Struct(b.name, f)
+
+
+def canon(I, v):
+    if not (isinstance(v, Struct) and len(v.fields) == 7):
+        return v
+    perm = builder_perm(I)
+    return Struct(v.name, [v.fields[perm[k]] for k in range(7)])
+
+
 def mk_builder(I, st, page_range=None):
-    inv = Struct(TLB + 'Invlpgb', [BV.sym(16, 'cap'), BV.sym(1, 'nested'), BV.sym(32, 'nasid')])
+    inv = mk_inv(I, BV.sym(16, 'cap'), BV.sym(1, 'nested'), BV.sym(32, 'nasid'))
     st.mem[('obj', 'invlpgb')] = inv
     b = Struct(TLB + 'InvlpgbFlushBuilder', [Ref(('obj', 'invlpgb')), page_range if page_range is not None else none(), Enum(OPT, None, None, (), None) if False else none(), none(),
                                              BV.sym(1, 'g'), BV.sym(1, 'f'), BV.sym(1, 'n')])
@@ -229,34 +332,34 @@ def builder(chk):
         st = State()
         b = mk_builder(I, st)
         b = Struct(b.name, [b.fields[0], b.fields[1], some(I.sym_value(adt(TLB + 'Pcid'), 'pc')), some(BV.sym(16, 'asid')), b.fields[4], b.fields[5], b.fields[6]])
-        ref = arg_obj(st, 'self', b)
+        ref = arg_obj(st, 'self', actual(I, b))
         saved_m = dict(I.models)
         outs = I.run(fn_, [ref], st, {g: S for g in I.fn[fn_]['generics']})
         ok = len(outs) == 1 and outs[0].kind == 'ret' and isinstance(outs[0].val, Struct) and len(outs[0].val.fields) == len(b.fields) and \
-            all(same(x, y) for x, y in zip(outs[0].val.fields, b.fields))
+            all(same(x, y) for x, y in zip(canon(I, outs[0].val).fields, b.fields))
         chk.ob('invlpgb', 'builder.clone() copies every field', ok, 'paths %r\n      original %r' % (outs, b), fn_site(I, fn_))
     else:
         chk.unproven('invlpgb', 'builder.clone()', 'Clone impl not found (anchor lost)')
     # pcid()
     st = State()
     b = mk_builder(I, st)
-    ref = arg_obj(st, 'self', b)
+    ref = arg_obj(st, 'self', actual(I, b))
     pc = I.sym_value(adt(TLB + 'Pcid'), 'pc')
     outs = I.run(B + 'pcid', [ref, pc], st, {'S': S})
-    fin = outs[0].st.mem[('arg', 'self')] if len(outs) == 1 else None
+    fin = canon(I, outs[0].st.mem[('arg', 'self')]) if len(outs) == 1 else None
     chk.ob('invlpgb', 'builder.pcid stores Some(pcid) and nothing else', fin is not None and fin.fields[2].vname == 'Some' and same(fin.fields[2].fields[0], pc) and
            all(same(fin.fields[i], b.fields[i]) for i in (0, 1, 3, 4, 5, 6)), 'final %r' % (fin,), fn_site(I, B + 'pcid'))
     # asid(): rejected exactly when asid >= nasid
     st = State()
     b = mk_builder(I, st)
-    ref = arg_obj(st, 'self', b)
+    ref = arg_obj(st, 'self', actual(I, b))
     outs = I.run(B + 'asid', [ref, BV.sym(16, 'asid')], st, {'S': S})
     oks = [o for o in outs if o.kind == 'ret' and o.val.vname == 'Ok']
     ers = [o for o in outs if o.kind == 'ret' and o.val.vname == 'Err']
     ok = len(oks) == 1 and len(ers) == 1 and len(outs) == 2
     if ok:
-        fo = oks[0].st.mem[('arg', 'self')]
-        fe = ers[0].st.mem[('arg', 'self')]
+        fo = canon(I, oks[0].st.mem[('arg', 'self')])
+        fe = canon(I, ers[0].st.mem[('arg', 'self')])
         from .c07 import canon_rel
         def cond(o):
             for e in o.st.events:
@@ -272,24 +375,24 @@ def builder(chk):
     for meth, idx in (('include_global', 4), ('final_translation_only', 5)):
         st = State()
         b = mk_builder(I, st)
-        ref = arg_obj(st, 'self', b)
+        ref = arg_obj(st, 'self', actual(I, b))
         outs = I.run(B + meth, [ref], st, {'S': S})
-        fin = outs[0].st.mem[('arg', 'self')] if len(outs) == 1 else None
+        fin = canon(I, outs[0].st.mem[('arg', 'self')]) if len(outs) == 1 else None
         chk.ob('invlpgb', 'builder.%s sets only its flag' % meth, fin is not None and eval_value(fin.fields[idx], {}) == 1 and all(same(fin.fields[i], b.fields[i]) for i in range(7) if i != idx),
                'final %r' % (fin,), fn_site(I, B + meth))
     st = State()
     b = mk_builder(I, st)
-    outs = I.run(B + 'include_nested_translations', [b], st, {'S': S})
+    outs = I.run(B + 'include_nested_translations', [actual(I, b)], st, {'S': S})
     rets = [o for o in outs if o.kind == 'ret']
-    ok = len(rets) == 1 and eval_value(rets[0].val.fields[6], {}) == 1 and rets[0].st.env.get(('nested', 0)) == 1 and all(o.kind == 'panic' for o in outs if o not in rets) and len(outs) == 2
+    ok = len(rets) == 1 and eval_value(canon(I, rets[0].val).fields[6], {}) == 1 and rets[0].st.env.get(('nested', 0)) == 1 and all(o.kind == 'panic' for o in outs if o not in rets) and len(outs) == 2
     chk.ob('invlpgb', 'builder.include_nested_translations sets its flag only when the processor supports it (panics otherwise)', ok, 'paths %r' % (outs,), fn_site(I, B + 'include_nested_translations'))
     st = State()
     b = mk_builder(I, st)
     rng = Opaque('the-range')
-    outs = I.run(B + 'pages', [b, rng], st, {'S': S, 'T': S})
+    outs = I.run(B + 'pages', [actual(I, b), rng], st, {'S': S, 'T': S})
     ok = len(outs) == 1 and outs[0].kind == 'ret'
     if ok:
-        r = outs[0].val
+        r = canon(I, outs[0].val)
         ok = r.fields[1].vname == 'Some' and r.fields[1].fields[0] is rng and all(same(r.fields[i], b.fields[i]) for i in (0, 2, 3, 4, 5, 6))
     chk.ob('invlpgb', 'builder.pages stores Some(range) and copies every other field', ok, 'paths %r' % (outs,), fn_site(I, B + 'pages'))
 
@@ -344,7 +447,7 @@ def flush_loop(chk):
             pgt = adt(PG, S)
             rng = Struct('structures::paging::page::PageRange', [I.sym_value(pgt, 'rs'), I.sym_value(pgt, 're')])
             b = Struct(b.name, [b.fields[0], some(rng), some(I.sym_value(adt(TLB + 'Pcid'), 'pc')), some(BV.sym(16, 'asid')), b.fields[4], b.fields[5], b.fields[6]])
-            ref = arg_obj(st, 'self', b)
+            ref = arg_obj(st, 'self', actual(I, b))
             outs = I.run(B + 'flush', [ref], st, {'S': S})
         finally:
             I.opaque_fns = saved
@@ -450,27 +553,27 @@ def invlpgb_object(chk):
         v = o.val.fields[0]
         n1, n2 = (cp[0][5], cp[1][5]) if ok else (None, None)
         if ok:
-            cap, nested, nasid = v.fields[0], v.fields[1], v.fields[2]
+            cap, nested, nasid = inv_canon(I, v)
             ok = same(cap, BV(16, sl('cpuid%d.edx' % n1, 0, 16))) and same(nested, BV(1, [lit('cpuid%d.ebx' % n1, 21)])) and same(nasid, BV.sym(32, 'cpuid%d.ebx' % n2)) and \
                 o.st.env.get(('cpuid%d.ebx' % n1, 3)) == 1
             detail = 'leaves %s, object %r' % ([hex(x) for x in leaves], v)
             cpn = [e for e in nones[0].st.events if e[0] == 'call' and e[1].endswith('__cpuid')]
             ok = ok and len(cpn) >= 1 and nones[0].st.env.get(('cpuid%d.ebx' % cpn[0][5], 3)) == 0
     chk.ob('invlpgb', 'Invlpgb::new: None unless CPUID 8000_0008 EBX[3]; count max = EDX[15:0], nested = EBX[21], nasid = CPUID 8000_000A EBX', ok, detail, fn_site(I, INV + '::new'))
-    inv = Struct(INV, [BV.sym(16, 'cap'), BV.sym(1, 'nested'), BV.sym(32, 'nasid')])
+    inv = mk_inv(I, BV.sym(16, 'cap'), BV.sym(1, 'nested'), BV.sym(32, 'nasid'))
     for meth, i in (('invlpgb_count_max', 0), ('tlb_flush_nested', 1), ('nasid', 2)):
         st = State()
         ref = arg_obj(st, 'self', inv)
         o = I.run(INV + '::' + meth, [ref], st)
         chk.count('function-instances')
-        chk.ob('invlpgb', 'Invlpgb::%s returns its field' % meth, len(o) == 1 and o[0].kind == 'ret' and same(o[0].val, inv.fields[i]), 'paths %r' % (o,), fn_site(I, INV + '::' + meth))
+        chk.ob('invlpgb', 'Invlpgb::%s returns its field' % meth, len(o) == 1 and o[0].kind == 'ret' and same(o[0].val, inv_canon(I, inv)[i]), 'paths %r' % (o,), fn_site(I, INV + '::' + meth))
     st = State()
     ref = arg_obj(st, 'self', inv)
     o = I.run(INV + '::build', [ref], st)
     chk.count('function-instances')
     ok = len(o) == 1 and o[0].kind == 'ret'
     if ok:
-        b = o[0].val
+        b = canon(I, o[0].val)
         ok = isinstance(b.fields[0], Ref) and b.fields[0].loc == ('arg', 'self') and all(isinstance(x, Enum) and x.vname == 'None' for x in b.fields[1:4]) and \
             all(eval_value(x, {}) == 0 for x in b.fields[4:7])
     chk.ob('invlpgb', 'Invlpgb::build: a builder for this object with no range, PCID or ASID and every option off', ok, 'paths %r' % (o,), fn_site(I, INV + '::build'))
